@@ -31,6 +31,7 @@ namespace NV.C08
 
 inductive Base where
   | bp (k : Nat)      -- "c08/b<k>"   (file exists, compiles)
+  | ih (k : Nat)      -- "c08/i<k>"   (file exists: `inherit "/c08/b<k>";`)
   | master            -- "c08/master"
   | simul             -- "simul_efun"
   | nofile            -- "c08/nx"     (no such file: load returns 0)
@@ -44,6 +45,7 @@ structure Name where
 
 def Base.str : Base → String
   | .bp k => s!"c08/b{k}"
+  | .ih k => s!"c08/i{k}"
   | .master => "c08/master"
   | .simul => "simul_efun"
   | .nofile => "c08/nx"
@@ -329,6 +331,7 @@ structure World where
   catching : Nat := 0                     -- number of catch() frames around the running code (innermost error context
                                           -- is a catch frame iff > 0)
   res : List Nat := []                    -- the array returned by the last objects(filter) (result register)
+  ldepth : Nat := 0                       -- num_objects_this_thread: load_object() calls in progress
   out : List String := []                 -- canonical trace, newest first
 
 def emit (w : World) (s : String) : World := { w with out := s :: w.out }
@@ -402,7 +405,7 @@ def hbOffU (w : World) : World := if w.catching = 0 then hbOff w else w
     restrict_destruct - the receiving context puts its saved value back (top level: 0; catch: see `.ct`) - and, for an
     uncaught error, switches the running heart beat off (`hbOff`) -/
 def raise (w : World) (msg : String) : R :=
-  { w := hbOffU (emit { w with restrict := none } (if w.catching = 0 then s!"err {msg}" else s!"caught {msg}")),
+  { w := hbOffU (emit { w with restrict := none, ldepth := 0 } (if w.catching = 0 then s!"err {msg}" else s!"caught {msg}")),
     out := .err }
 
 def crashR (w : World) (what : String) : R := { w := emit w s!"crash {what}", out := .crash }
@@ -419,7 +422,8 @@ def restricted (w : World) (ob : Nat) : Bool :=
 inductive Task where
   | ops (self : Nat) (arg : Option Nat) (l : List Op)     -- run a script in object `self`
   | hook (x : Nat) (k : Hook) (arg : Option Nat)           -- apply(create|init|move_or_destruct, x); arg = this_player()/dest
-  | load (b : Base)                                        -- find_or_load_object
+  | load (b : Base) (strict : Bool)                        -- `lookup_object_hash (name)`, and on a miss `load_object (name)`;
+                                                           -- strict = find_or_load_object (a destructed result is 0)
   | clone (b : Base)                                       -- clone_object
   | move (item dest : Nat)                                 -- f_move_object (object argument) + move_object
   | moveStr (item : Nat) (b : Base)                        -- f_move_object with a string argument
@@ -443,6 +447,11 @@ def errFis (b : Base) : String :=
   "Bad argument 1 to first_inventory(), Expected: string or object Got: \"/" ++ b.str ++ "\"."
 def errNoDest := NV.Gen.C08.errNoDestSrc
 def errEfunCb := NV.Gen.C08.errEfunCbSrc
+/-- `MaxInheritDepth` of the harness configuration -/
+abbrev inheritChainSize : Nat := NV.Gen.C08.inheritChainSize
+def errChain (b : Base) : String :=
+  NV.Gen.C08.errChainSrc ++ s!"{inheritChainSize} when trying to load '{b.str}'."
+def errNoInherit (k : Nat) : String := NV.Gen.C08.errNoInheritSrc ++ s!"{(Base.bp k).str}' does not exist!"
 
 /-- the interpreter; every call decreases the fuel -/
 def exec (sc : Scripts) : Nat → Task → World → R
@@ -454,15 +463,15 @@ def exec (sc : Scripts) : Nat → Task → World → R
       let r : R :=
         match op with
         | .ld b =>
-          (exec sc f (.load b) w).andThen fun w v =>
-            -- do_op: `t = typeof (load_object (p)); ob = find_object (p);` - typeof sees the value the efun left on
-            -- the stack, the object itself is fetched by a second lookup
+          (exec sc f (.load b true) w).andThen fun w v =>
+            -- do_op: `t = typeof (ob2 = load_object (p)); ob = find_object (p);` - typeof sees the value the efun left
+            -- on the stack, the object is fetched by a second lookup and both results are reported
             let nm : Name := { base := b, num := none }
             if anyFreed w.c (w.c.ot (hashN nm)) then crashR w "find_obj_n"
             else
               let r := lookupC w.c nm
               let w := { w with c := r.1 }
-              { w := emit w s!"r ld {b.str} {roid w.c self (r.2.bind (readRef w.c))} {if v.isSome then 1 else 0}" }
+              { w := emit w s!"r ld {b.str} {roid w.c self (r.2.bind (readRef w.c))} {if v.isSome then 1 else 0} {roid w.c self (v.bind (readRef w.c))}" }
         | .cl b =>
           (exec sc f (.clone b) w).andThen fun w v =>
             { w := emit w s!"r cl {b.str} {roid w.c self (v.bind (readRef w.c))}" }
@@ -495,7 +504,7 @@ def exec (sc : Scripts) : Nat → Task → World → R
             (exec sc f (.present e t (w.c.objs e).contains.head?) w).andThen fun w v =>
               { w := emit w s!"r pr {oid e} {oid t} {roid w.c self (v.bind (readRef w.c))}" }
         | .fis b =>
-          (exec sc f (.load b) w).andThen fun w v =>
+          (exec sc f (.load b true) w).andThen fun w v =>
             match v with
             | none => raise w (errFis b)
             | some d => { w := emit w s!"r fis {b.str} {roid w.c self ((w.c.objs d).contains.head?.bind (readRef w.c))}" }
@@ -580,7 +589,7 @@ def exec (sc : Scripts) : Nat → Task → World → R
           let r := exec sc f (.ops self arg [o]) (emit { w with catching := w.catching + 1 } s!"ctb {oid self}")
           match r.out with
           | .ok => { w := emit { r.w with catching := w.catching } s!"r ct {oid self} 0" }
-          | .err => { w := emit { r.w with catching := w.catching, cg := w.cg, restrict := w.restrict } s!"r ct {oid self} 1" }
+          | .err => { w := emit { r.w with catching := w.catching, cg := w.cg, restrict := w.restrict, ldepth := w.ldepth } s!"r ct {oid self} 1" }
           | _ => r
         | .nop => { w := w }
       r.andThen fun w _ =>
@@ -603,7 +612,10 @@ def exec (sc : Scripts) : Nat → Task → World → R
         -- only move_or_destruct(dest) hands its argument to the script
         (exec sc f (.ops x (if k = .mod then arg else none) (sc x k n)) w).andThen fun w _ =>
           { w := emit w s!"he {oid x} {k.str}" }
-    | .load b =>
+    | .load b strict =>
+      -- `if (!(ob = lookup_object_hash (name))) ob = load_object (name, 0);` - the three sites of this pattern are
+      -- find_or_load_object (strict: a destructed result is 0), the load of an inherited program and the re-lookup
+      -- after it (both inside load_object)
       let nm : Name := { base := b, num := none }
       if anyFreed w.c (w.c.ot (hashN nm)) then crashR w "find_obj_n"
       else
@@ -612,20 +624,52 @@ def exec (sc : Scripts) : Nat → Task → World → R
         match r.2 with
         | some i => { w := w, val := some i }
         | none =>
-          match b with
-          | .nofile => { w := w, val := none }
-          | .badfile => raise w errBadFile
-          | _ =>
-            let saveCg := w.cg
-            let a := alloc w.c nm false
-            let w := { w with c := a.1 }
-            (exec sc f (.hook a.2 .create none) w).andThen fun w _ =>
-              let w := { w with cg := saveCg }
+          -- load_object (name): `if (++num_objects_this_thread > __INHERIT_CHAIN_SIZE__) error`
+          let saveCg := w.cg
+          let w := { w with ldepth := w.ldepth + 1 }
+          if w.ldepth > inheritChainSize then raise w (errChain b)
+          else
+            -- the program: either a final result (no file, compile error, the inherit detour) or "compiled in state w"
+            let ph : R ⊕ World :=
+              match b with
+              | .nofile => .inl { w := { w with ldepth := w.ldepth - 1 }, val := none }
+              | .badfile => .inl (raise w errBadFile)
+              | .ih k =>
+                -- grammar.y `inherit`: find_object_by_name (inherited file); not loaded: inherit_file is set, the
+                -- compilation is abandoned, the inherited object is loaded (its create() runs), then - "it is possible
+                -- that when we loaded the inherited object, it loaded this object from it's create function" - the
+                -- name is looked up AGAIN and only on a miss the object is loaded again
+                let inh : Name := { base := .bp k, num := none }
+                if anyFreed w.c (w.c.ot (hashN inh)) then .inl (crashR w "find_obj_n")
+                else
+                  let rb := lookupC w.c inh
+                  let w := { w with c := rb.1 }
+                  match rb.2 with
+                  | some _ => .inr w
+                  | none =>
+                    .inl ((exec sc f (.load (.bp k) false) w).andThen fun w v =>
+                      match v with
+                      | none => raise w (errNoInherit k)
+                      | some _ =>
+                        (exec sc f (.load b false) w).andThen fun w v =>
+                          { w := { w with ldepth := w.ldepth - 1 }, val := v })
+              | _ => .inr w
+            let body : R :=
+              match ph with
+              | .inl r => r
+              | .inr w =>
+                let a := alloc w.c nm false
+                (exec sc f (.hook a.2 .create none) { w with c := a.1 }).andThen fun w _ =>
+                  { w := { w with cg := saveCg, ldepth := w.ldepth - 1 }, val := some a.2 }
+            body.andThen fun w v =>
               -- find_or_load_object: `if (!ob || (ob->flags & O_DESTRUCTED)) return 0`
-              if (w.c.objs a.2).destructed then { w := w, val := none } else { w := w, val := some a.2 }
+              match v with
+              | none => { w := w, val := none }
+              | some ob => if strict ∧ (w.c.objs ob).destructed then { w := w, val := none } else { w := w, val := some ob }
     | .clone b =>
       let saveCg := w.cg
-      (exec sc f (.load b) w).andThen fun w v =>
+      -- `num_objects_this_thread = 0;` at the start of clone_object
+      (exec sc f (.load b true) { w with ldepth := 0 }).andThen fun w v =>
         match v with
         | none => { w := w, val := none }
         | some ob =>
@@ -668,7 +712,7 @@ def exec (sc : Scripts) : Nat → Task → World → R
     | .moveStr item b =>
       -- f_move_object: the destination is resolved (and loaded: its create() runs) FIRST, then current_object is
       -- tested for O_DESTRUCTED (the first thing `.move` does), then move_object()
-      (exec sc f (.load b) w).andThen fun w v =>
+      (exec sc f (.load b true) w).andThen fun w v =>
         match v with
         | none => raise w errNoDest
         | some d => exec sc f (.move item d) w
@@ -875,7 +919,7 @@ def tick (sc : Scripts) (w : World) : World :=
     match r.out with
     | .ok => { r.w with hbIdx := 0, hbTodo := 0, curHb := none }
     -- an error abandons the round (backend()'s recovery point); restore_context() restores command_giver
-    | .err => emit { r.w with cg := w.cg } "r tick !err"
+    | .err => emit { r.w with cg := w.cg, ldepth := w.ldepth } "r tick !err"
     | _ => r.w
 
 inductive Cmd where
@@ -894,7 +938,7 @@ def stepCmd (sc : Scripts) (w : World) : Cmd → World
     match r.out with
     | .ok => r.w
     -- restore_context() puts command_giver back to its value at save_context()
-    | .err => emit { r.w with cg := w.cg } "r top !err"
+    | .err => emit { r.w with cg := w.cg, ldepth := w.ldepth } "r top !err"
     | _ => r.w
   | .tick => tick sc w
   | .snap => { w with out := (snapLines w.c).reverse ++ w.out }
